@@ -42,7 +42,7 @@ from harness.lib import coqbuild, gcsim
 from harness.props import c05 as h5
 
 LEVEL = "proof"
-THEOREMS = ["C07_fail_closed", "C07_damage", "C07_transient", "C07_partial_decode", "C07_marker_keep"]
+THEOREMS = ["C07_fail_closed", "C07_damage", "C07_transient", "C07_partial_decode", "C07_pointer_consistent", "C07_pointer_raise_aborts", "C07_marker_keep"]
 REQ = gcsim.REQ
 TIMEOUT_MS = h5.TIMEOUT_MS
 
@@ -114,6 +114,8 @@ def build_base(base: str, spec: Dict[str, Any]) -> Tuple[str, float]:
         snaps = reader.snapshots()
         if len(snaps) >= 2:
             t.snapshot_manager.delete_snapshot(snaps[0]["snapshot_id"])
+    if spec.get("dead_writer"):
+        leave_dead_writer(t, reader, root, spec["dead_writer"])
     if spec.get("multiblock"):
         reencode_multiblock(root, reader)
     h5._plant(root, "data/orphan_a.parquet", b"PAR1 orphan")
@@ -140,6 +142,26 @@ def build_base(base: str, spec: Dict[str, Any]) -> Tuple[str, float]:
             ts = now - spec["grace"] / 1000.0 - 100.0
             os.utime(os.path.join(root, key), (ts, ts))
     return root, now
+
+
+def leave_dead_writer(t: Any, reader: gcsim.IndepReader, root: str, kind: str) -> None:
+    """Leftovers of a writer that died between writing its new metadata version and flipping the version pointer: the commit
+    is carried out for real and the pointer is then put back, so an UNPUBLISHED higher-numbered metadata file (and, for an
+    append, its manifest, list and data file) lies around while the table is still published at the old version."""
+    hint_path = os.path.join(root, gcsim.HINT_KEY)
+    published = open(hint_path, "rb").read()
+    snaps = reader.snapshots()
+    if kind == "expire" and len(snaps) >= 2:
+        tx = t.new_transaction().begin()
+        tx.expire_snapshots(max(s["timestamp_ms"] for s in snaps) + 1)       # would drop every snapshot but the current one
+        tx.commit()
+    elif kind == "delete_snapshot" and len(snaps) >= 2:
+        t.snapshot_manager.delete_snapshot(snaps[0]["snapshot_id"])
+    else:
+        t.append_records([{"x": 7777}])
+    with open(hint_path, "wb") as f:
+        f.write(published)
+    t.metadata_manager.refresh()
 
 
 def reencode_multiblock(root: str, reader: gcsim.IndepReader) -> None:
@@ -517,10 +539,33 @@ def apply_damage(root: str, key: str, dmg: Any) -> None:
 
 
 # ------------------------------------------------------------------------------------------ refresh-phase faults (oracle only)
+def version_of(key: str) -> int:
+    import re
+    return int(re.match(r"^metadata/v(\d+)", key).group(1))
+
+
+def pointer_expr(versions: List[int], published: int, rec: Dict[str, Any]) -> str:
+    """The fault of one pointer-plane run as the answers of Model/GCPointer.v: occurrence 0 is refresh()'s resolution,
+    occurrence 1 the collector's own; a raising kind = PRaise / XRaise, an unusable result = PNone / XFalse."""
+    truth, ok = f"(PSome {published}%nat)", "(fun _ : nat => XTrue)"
+    a = {0: truth, 1: truth}
+    x = {0: ok, 1: ok}
+    which = [0, 1] if rec["occ"] == "*" else [rec["occ"]]
+    for i in which:
+        if i not in (0, 1):
+            continue
+        if rec["role"] == "hint":
+            a[i] = "PNone" if rec["kind"] == "bad" else "PRaise"
+        elif rec["role"] == "metadata-file":
+            x[i] = f"(fun v : nat => if Nat.eqb v {published}%nat then {'XFalse' if rec['kind'] == 'bad' else 'XRaise'} else XTrue)"
+    vs = "[" + "; ".join(f"{v}%nat" for v in versions) + "]"
+    return f"match collect_resolve {vs} {a[0]} {x[0]} {a[1]} {x[1]} with RAbort => (-1)%Z | RNoTable => (-2)%Z | RUse v => Z.of_nat v end"
+
+
 def refresh_faults(spec: Dict[str, Any]) -> Dict[str, Any]:
     import logging
     logging.disable(logging.CRITICAL)
-    out: Dict[str, Any] = {"violations": [], "runs": 0}
+    out: Dict[str, Any] = {"violations": [], "runs": 0, "records": []}
     base = spec["base"] + "-refresh"
     shutil.rmtree(base, ignore_errors=True)
     os.makedirs(base)
@@ -533,6 +578,9 @@ def refresh_faults(spec: Dict[str, Any]) -> Dict[str, Any]:
         os.makedirs(os.path.dirname(probe))
         gcsim.copy_table(root, probe)
         pre = gcsim.run_collect(load_table(probe), spec["grace"], now)["pre_trace"]   # refresh() + the hint check
+        hint = open(os.path.join(root, gcsim.HINT_KEY)).read().strip()
+        out["published"] = int(hint) if hint.isdigit() else version_of("metadata/" + hint)
+        out["versions"] = sorted({version_of(k) for k in gcsim.list_tree(root) if gcsim.is_pointer_plane(k) and k.startswith("metadata/v")})
         occ: Dict[Tuple[str, str], int] = {}
         k = 0
         for (op, key, _f) in pre:
@@ -540,7 +588,16 @@ def refresh_faults(spec: Dict[str, Any]) -> Dict[str, Any]:
                 continue
             o = occ.get((op, key), 0)
             occ[(op, key)] = o + 1
-            for kind in KINDS[op]:
+            prole = "hint" if key == gcsim.HINT_KEY else "metadata-dir" if key == "metadata" else "metadata-file"
+            # one occurrence failing (transient), and -- for the kinds that RAISE, i.e. are visibly failures -- the call failing
+            # every time during this collection (a pointer that merely LOOKS absent or garbled every time is, for the library,
+            # a lost pointer: recovered by scanning, C10; not judged here)
+            plans = [(kind, o, f"{kind}@refresh:{op}:{prole}#{o}") for kind in KINDS[op]]
+            if o == 0:
+                plans += [(kind, "*", f"{kind}*@refresh:{op}:{prole}") for kind in KINDS[op] if kind != "bad"]
+            for kind, o_sel, what in plans:
+                if spec.get("only") and spec["only"].get("what") != what:
+                    continue
                 k += 1
                 dst = os.path.join(base, f"r{k}", "tbl")
                 os.makedirs(os.path.dirname(dst))
@@ -549,13 +606,19 @@ def refresh_faults(spec: Dict[str, Any]) -> Dict[str, Any]:
                 try:
                     with gcsim.bounded(30):
                         t2 = load_table(dst)
-                        real = gcsim.run_collect(t2, spec["grace"], now, [{"op": op, "key": key, "occ": o, "kind": kind}])
+                        real = gcsim.run_collect(t2, spec["grace"], now, [{"op": op, "key": key, "occ": o_sel, "kind": kind}])
                 except (gcsim.CaseTimeout, MemoryError) as e:
-                    out["violations"].append({"key": f"hang:{kind}@refresh:{op}", "what": f"{kind}@refresh:{op}: the collection did not finish ({type(e).__name__})"})
+                    out["violations"].append({"key": f"hang:{what}", "what": f"{what}: the collection did not finish ({type(e).__name__})", "desc": {"what": what}})
                     continue
                 after = gcsim.list_tree(dst)
-                out["violations"].extend(judge(spec["grace"], now, reach, live, markers0, before, after, real, "refresh" if real["raised"] else "none",
-                                               f"{kind}@refresh:{op}"))
+                loaded = [c[1] for c in real["pre_trace"] if c[0] == "?read_json"]
+                out["records"].append({"what": what, "op": op, "role": prole, "occ": o_sel, "kind": kind, "raised": real["raised"],
+                                       "used": version_of(loaded[0]) if loaded else None})
+                vs = judge(spec["grace"], now, reach, live, markers0, before, after, real, "refresh" if real["raised"] else "none", what)
+                for v in vs:
+                    v["desc"] = {"what": what}
+                    v["what"] += f" [dead-writer leftover: {spec.get('dead_writer')}; pointer-plane calls: {[(c[0], c[1]) for c in pre][:8]}]"
+                out["violations"].extend(vs)
                 out["runs"] += 1
                 shutil.rmtree(os.path.dirname(dst), ignore_errors=True)
     except Exception:
@@ -569,13 +632,14 @@ def refresh_faults(spec: Dict[str, Any]) -> Dict[str, Any]:
 def make_specs(ctx) -> List[Dict[str, Any]]:
     quick = ctx.tier == "quick"
     specs = []
+    # dead_writer: an unpublished higher metadata version (+ strays) left by a writer that died before flipping the pointer
     # multi_append: the newest commit adds several files (a manifest with several records); multiblock: lists and manifests
     # laid out with one Avro block per record (what a writer produces once a file outgrows a block)
     variants = [
         {"snaps": 1, "rewrite": False, "expire": False, "multi_append": 3},
-        {"snaps": 2, "rewrite": True, "expire": False},
-        {"snaps": 3, "rewrite": False, "expire": True, "legacy_marker": True, "multiblock": True},
-        {"snaps": 4, "rewrite": True, "expire": True, "multi_append": 2, "multiblock": True},
+        {"snaps": 2, "rewrite": True, "expire": False, "dead_writer": "append"},
+        {"snaps": 3, "rewrite": False, "expire": True, "legacy_marker": True, "multiblock": True, "dead_writer": "delete_snapshot"},
+        {"snaps": 4, "rewrite": True, "expire": True, "multi_append": 2, "multiblock": True, "dead_writer": "expire"},
     ]
     graces = [0] if quick else [0, 3600000]
     for vi, v in enumerate(variants):
@@ -609,9 +673,9 @@ def run_campaign(ctx) -> None:
     ex = cf.ProcessPoolExecutor(max_workers=workers, mp_context=mp.get_context("spawn"), initializer=gcsim.limit_worker_memory)
     try:
         futs = [ex.submit(run_table, s) for s in specs]
-        rfut = [ex.submit(refresh_faults, s) for s in specs[:2]]
+        rfut = [ex.submit(refresh_faults, s) for s in specs]
         results, rres = [], []
-        for f, sp in list(zip(futs, specs)) + list(zip(rfut, specs[:2])):
+        for f, sp in list(zip(futs, specs)) + list(zip(rfut, specs)):
             try:
                 res = f.result(timeout=max(5.0, budget - (time.time() - t0)))
             except Exception as e:  # noqa: BLE001 - TimeoutError, BrokenProcessPool (worker killed by its memory limit)
@@ -627,11 +691,31 @@ def run_campaign(ctx) -> None:
     ctx.stats["campaign_wall_s"] = round(time.time() - t0, 1)
     agg = {"tables": len(specs), "storage_calls_per_collection": [], "fault_runs": 0, "damage_runs": 0, "raised": 0, "absorbed_or_completed": 0,
            "refresh_fault_runs": sum(r.get("runs", 0) for r in rres), "not_judged_parses_as_empty": 0}
-    for r in rres:
+    for sp, r in zip(specs, rres):
         if "harness_error" in r:
             ctx.proof_problems.append("refresh-fault harness raised: " + r["harness_error"][-600:])
         for v in r["violations"]:
-            ctx.violation(v["key"], v["what"], {"spec": {k: specs[0][k] for k in specs[0] if k != "base"}, "campaign": "refresh"})
+            ctx.violation(v["key"], v["what"], {"spec": {k: sp[k] for k in sp if k != "base"}, "campaign": "refresh", "only": v.get("desc")})
+    # ---- correspondence of the pointer plane: which version the collection worked from (or that it aborted), real vs Model/GCPointer.v
+    pexprs, precs = [], []
+    for sp, r in zip(specs, rres):
+        for rec in r.get("records", []):
+            if rec["role"] in ("hint", "metadata-file") and rec["occ"] in (0, 1, "*"):
+                pexprs.append(pointer_expr(r["versions"], r["published"], rec))
+                precs.append((sp, r, rec))
+    try:
+        pvals = coqbuild.coq_eval(["DS.Model.GCPointer"], pexprs, chunk=gcsim.chunk_for(len(pexprs))) if pexprs else []
+    except RuntimeError as e:
+        ctx.proof_problems.append("model evaluation failed: " + str(e)[:600])
+        pvals = []
+    pbad = []
+    for (sp, r, rec), mv in zip(precs, pvals):
+        real_v = -1 if rec["raised"] else (rec["used"] if rec["used"] is not None else -2)
+        ctx.count(1, ("pointer", sp.get("dead_writer"), rec["what"]))
+        if real_v != mv:
+            pbad.append({"spec": {k: sp[k] for k in sp if k != "base"}, "fault": rec["what"], "versions": r["versions"], "published": r["published"],
+                         "code_used_or_abort": real_v, "model": mv})
+    ctx.correspondence("gc_pointer", len(pvals), pbad)
     stage1, recs = [], []
     for spec, res in zip(specs, results):
         if res.get("dead"):
